@@ -417,7 +417,6 @@ func (o opts) qualified() bool { return spellings[o.T1].Qualified || spellings[o
 // ---- gap styles -----------------------------------------------------------------------------------
 
 var gapStylesThorough = []string{"\n", "/*c*/", "--c\n", "/* from x */", "\t", "  ", "\r\n", "\f", " /* c */ ", " -- c\n", "-- join y\n", "/*/*n*/*/", "/* ' */", "\n\t "}
-var gapStylesQuick = gapStylesThorough[:3]
 var gapStylesUniformSmall = []string{"\n", "/*c*/", "--c\n", "/* ' */"}
 
 // sepVariants calls emit for the base query and for every separator variant: each single gap set to each
@@ -494,16 +493,13 @@ func enumerate(quick bool, emit func(*query)) {
 		}
 		return []string{"", "prod"}
 	}
+	if quick {
+		enumerateQuick(out, hdrFor)
+		return
+	}
 	styles := gapStylesThorough
-	if quick {
-		styles = gapStylesQuick
-	}
 	uniform := gapStylesUniformSmall
-	if quick {
-		uniform = nil
-	}
-	// 1. separators (quick: the per-gap product only for the small join-kind set; every join kind still gets
-	// the default rendering and the uniform styles)
+	// 1. separators
 	for ti := range templates {
 		t := &templates[ti]
 		jks := []int{0}
@@ -513,7 +509,7 @@ func enumerate(quick bool, emit func(*query)) {
 		for _, jk := range jks {
 			o := opts{JK: jk}
 			if q, ok := build(t, o); ok {
-				sepVariants(q, styles, !quick || t.JKs != "all" || joinKinds[jk].Sub, out("separators", hdrFor(o)))
+				sepVariants(q, styles, true, out("separators", hdrFor(o)))
 			}
 		}
 	}
@@ -532,9 +528,6 @@ func enumerate(quick bool, emit func(*query)) {
 		for _, jk := range small(t) {
 			for t1 := range spellings {
 				for t2 := range spellings {
-					if quick && !(t2 == 0 || t2 == 1 || t2 == 2 || t2 == 6) {
-						continue // quick: T2 in {bare, quoted, db.m, MixedCase}
-					}
 					o := opts{JK: jk, T1: t1, T2: t2}
 					if q, ok := build(t, o); ok {
 						sepVariants(q, uniform, false, out("spellings", hdrFor(o)))
@@ -548,9 +541,6 @@ func enumerate(quick bool, emit func(*query)) {
 		t := &templates[ti]
 		for _, jk := range small(t) {
 			for l := 1; l < len(literals); l++ {
-				if quick && l > 6 {
-					continue // quick: the first six literals
-				}
 				for _, pos := range []int{litSelect, litWhere} {
 					o := opts{JK: jk, Lit: l, LitPos: pos}
 					if q, ok := build(t, o); ok {
@@ -560,8 +550,8 @@ func enumerate(quick bool, emit func(*query)) {
 			}
 		}
 	}
-	// 5. (thorough only) cross: decorated queries x every single gap
-	if !quick {
+	// 5. cross: decorated queries x every single gap
+	{
 		cross := []string{"\n", "/*c*/", "--c\n"}
 		for ti := range templates {
 			t := &templates[ti]
@@ -593,9 +583,6 @@ func enumerate(quick bool, emit func(*query)) {
 			for al := range aliases {
 				for col := colPlain; col <= colMixed; col++ {
 					for kw := kwUpper; kw <= kwMixed; kw++ {
-						if quick && ((col != colPlain && (al != 0 || kw != kwUpper)) || (kw != kwUpper && al != 0)) {
-							continue // quick: the three dimensions one at a time
-						}
 						o := opts{JK: jk, Alias: al, Col: col, Kw: kw}
 						if q, ok := build(t, o); ok {
 							u := uniform
@@ -605,6 +592,158 @@ func enumerate(quick bool, emit func(*query)) {
 							sepVariants(q, u, false, out("identifiers", hdrFor(o)))
 						}
 					}
+				}
+			}
+		}
+	}
+}
+
+// ---- the quick tier: a stated sub-product of the above ------------------------------------------------
+
+// quickTemplates: one or two representatives of every template group, used by the quick tier wherever a
+// decoration (spelling, literal, identifier) and not the template is the subject.
+var quickTemplates = map[string]bool{"proj": true, "filter-order": true, "aggregate": true, "join": true, "comma-join": true, "lateral-cross": true,
+	"cte": true, "cte-shadow-other": true, "from-subquery": true, "where-in": true, "extract": true, "trim": true}
+
+var quickSpellingTemplates = map[string]bool{"proj": true, "join": true, "comma-join": true, "cte": true, "where-in": true, "extract": true}
+
+// refAdjacent: the quick tier sets a single gap to a newline only next to the words that introduce or join table
+// references (the thorough tier does it for every gap).
+var refAdjacent = map[string]bool{"FROM": true, "JOIN": true, "LATERAL": true, "WITH": true, "RECURSIVE": true, "LEFT": true, "RIGHT": true, "FULL": true,
+	"INNER": true, "OUTER": true, "CROSS": true, "NATURAL": true, "SEMI": true, "ANTI": true, "ASOF": true, "POSITIONAL": true}
+
+var quickUniform = []string{"\n", "/*c*/", "--c\n"}
+
+var quickFamilies = []famInfo{
+	{"separators", "every template x every join kind, default spelling, no decoration: default rendering, all required gaps = newline; for every template and the small join-kind set also all required gaps and all gaps = {newline, /*c*/, --c<newline>}, each x header {none, prod}; every single gap next to FROM / JOIN / a join modifier / LATERAL / WITH / RECURSIVE = newline x header prod; the gap between EXTRACT/TRIM/SUBSTRING and its parenthesis = {form feed, nested block comment} x header {none, prod}"},
+	{"spellings", "templates {proj, join (JOIN), comma-join, cte, where-in, extract} x T1 spelling (all 10) x T2 spelling {bare, quoted, db.m, MixedCase}, default gaps x header {none; prod when no reference names a database}"},
+	{"literals", "12 representative templates x literal {'a','read_parquet','from',' from mem ','it''s','--'} x position {select list, WHERE conjunct}, default gaps x header {none, prod}"},
+	{"identifiers", "12 representative templates x (alias {h1,Hx,\"H x\",\"from\",valid_from,\"join\"} | column reference style {quoted, Mixed} | keyword case {lower, MiXeD}), one dimension at a time, default gaps x header {none, prod}"},
+}
+
+func enumerateQuick(out func(fam string, hdrs []string) func(*query), hdrFor func(opts) []string) {
+	firstSmall := func(t *tmpl) []int {
+		switch t.JKs {
+		case "":
+			return []int{0}
+		case "all":
+			return jkSet("sub")[:1]
+		}
+		return jkSet(t.JKs)[:1]
+	}
+	// 1. separators
+	for ti := range templates {
+		t := &templates[ti]
+		jks := []int{0}
+		if t.JKs != "" {
+			jks = jkSet(t.JKs)
+		}
+		for _, jk := range jks {
+			o := opts{JK: jk}
+			q, ok := build(t, o)
+			if !ok {
+				continue
+			}
+			both := out("separators", hdrFor(o))
+			prod := out("separators", []string{"prod"})
+			both(q)
+			styles := quickUniform
+			sub := t.JKs != "all" || joinKinds[jk].Sub
+			if !sub {
+				styles = styles[:1]
+			}
+			for _, st := range styles {
+				u := q.clone()
+				for i := 1; i < len(u.Gaps); i++ {
+					if !u.Glue[i] {
+						u.Gaps[i] = st
+					}
+				}
+				both(u)
+				if !sub {
+					continue
+				}
+				a := q.clone()
+				for i := 1; i < len(a.Gaps); i++ {
+					a.Gaps[i] = st
+				}
+				both(a)
+			}
+			if !sub {
+				continue
+			}
+			for i := 1; i < len(q.Gaps); i++ {
+				if !refAdjacent[q.Toks[i]] && !refAdjacent[q.Toks[i-1]] {
+					continue
+				}
+				c := q.clone()
+				c.Gaps[i] = "\n"
+				prod(c)
+			}
+			for i := 1; i < len(q.Toks); i++ {
+				if q.Toks[i] != "(" {
+					continue
+				}
+				switch q.Toks[i-1] {
+				case "EXTRACT", "TRIM", "SUBSTRING":
+					for _, st := range []string{"\f", "/*/*n*/*/"} {
+						c := q.clone()
+						c.Gaps[i] = st
+						both(c)
+					}
+				}
+			}
+		}
+	}
+	// 2. spellings
+	for ti := range templates {
+		t := &templates[ti]
+		if !quickSpellingTemplates[t.ID] {
+			continue
+		}
+		for _, jk := range firstSmall(t) {
+			for t1 := range spellings {
+				for _, t2 := range []int{0, 1, 2, 6} {
+					o := opts{JK: jk, T1: t1, T2: t2}
+					if q, ok := build(t, o); ok {
+						out("spellings", hdrFor(o))(q)
+					}
+				}
+			}
+		}
+	}
+	// 3. literals
+	for ti := range templates {
+		t := &templates[ti]
+		if !quickTemplates[t.ID] {
+			continue
+		}
+		for _, jk := range firstSmall(t) {
+			for l := 1; l <= 6; l++ {
+				for _, pos := range []int{litSelect, litWhere} {
+					o := opts{JK: jk, Lit: l, LitPos: pos}
+					if q, ok := build(t, o); ok {
+						out("literals", hdrFor(o))(q)
+					}
+				}
+			}
+		}
+	}
+	// 4. identifiers
+	for ti := range templates {
+		t := &templates[ti]
+		if !quickTemplates[t.ID] {
+			continue
+		}
+		for _, jk := range firstSmall(t) {
+			var os []opts
+			for al := 1; al < len(aliases); al++ {
+				os = append(os, opts{JK: jk, Alias: al})
+			}
+			os = append(os, opts{JK: jk, Col: colQuoted}, opts{JK: jk, Col: colMixed}, opts{JK: jk, Kw: kwLower}, opts{JK: jk, Kw: kwMixed})
+			for _, o := range os {
+				if q, ok := build(t, o); ok {
+					out("identifiers", hdrFor(o))(q)
 				}
 			}
 		}
